@@ -230,7 +230,7 @@ def run_once(s, r, sn, groups, prefix, extra_env=None, on_group_complete=None):
                 ex.decisions.append((enabled, choice))
                 code = do_release(waiting[choice])
                 if code != 0:
-                    failed = True
+                    failed = True   # non-zero exit or death by signal: the plan is not expected to continue
                     break
             if on_group_complete:
                 on_group_complete(c, k, gi)
@@ -313,7 +313,7 @@ def canon_doc(doc, mask_siblings=True):
     if mask_siblings:
         for r in d.get("results", []):
             for g in r.get("target_groups", []):
-                if any(t.get("status") == "error" and t.get("code") is not None or t.get("status") == "not_executable" for t in g.values()):
+                if any(t.get("status") in ("error", "not_executable") for t in g.values()):
                     for t in g.values():
                         if not (t.get("status") == "error" and t.get("code") is not None) and t.get("status") in ("success", "error", "cancelled"):
                             t.clear()
